@@ -35,6 +35,9 @@ Inductive stage_mode := Overwrite | IfAbsent.
 (** when oneshot_command removes a previous output file before calling the task: only on the path
     that consulted the cache (shipped: the remove sits inside `if output_path and not args.no_cache`),
     always, or never *)
+(** what the arrayer's grouping key (JobDescription.key) says about the job's options: the sorted
+    (name, value) items, or the sorted option names only *)
+Inductive opts_field := OItems | ONames.
 Inductive clear_mode := ClearCached | ClearAlways | ClearNever.
 
 (** ** Configuration extracted from the source by translate/tr_scratch.py *)
@@ -46,7 +49,8 @@ Record cfg := {
   env_vars : list str;                                           (* lookup order of get_job_array_index *)
   key_task : key_field;                                          (* JobDescription.task_name *)
   stage_input : stage_mode;                                      (* get_oneshot_command, non-array branch *)
-  clear_output : clear_mode                                      (* oneshot_command: output_file.remove() *)
+  clear_output : clear_mode;                                     (* oneshot_command: output_file.remove() *)
+  key_opts : opts_field                                          (* JobDescription.key, option component *)
 }.
 
 Definition shipped : cfg := {|
@@ -57,32 +61,41 @@ Definition shipped : cfg := {|
   env_vars := [lit "AWS_BATCH_JOB_ARRAY_INDEX"; lit "JOB_COMPLETION_INDEX"; lit "BATCH_TASK_INDEX"];
   key_task := KFullname;
   stage_input := Overwrite;
-  clear_output := ClearCached
+  clear_output := ClearCached;
+  key_opts := OItems
 |}.
+
+(** the variant whose grouping key lists the option names only *)
+Definition names_only (c : cfg) : cfg := {|
+  f_input := f_input c; f_output := f_output c; f_error := f_error c; f_hashes := f_hashes c;
+  d_jobs := d_jobs c; d_array := d_array c; arr_out_elem := arr_out_elem c; arr_err_elem := arr_err_elem c;
+  arr_suffix := arr_suffix c; env_vars := env_vars c; key_task := key_task c; stage_input := stage_input c;
+  clear_output := clear_output c; key_opts := ONames |}.
 
 Definition with_clear (m : clear_mode) (c : cfg) : cfg := {|
   f_input := f_input c; f_output := f_output c; f_error := f_error c; f_hashes := f_hashes c;
   d_jobs := d_jobs c; d_array := d_array c; arr_out_elem := arr_out_elem c; arr_err_elem := arr_err_elem c;
   arr_suffix := arr_suffix c; env_vars := env_vars c; key_task := key_task c; stage_input := stage_input c;
-  clear_output := m |}.
+  clear_output := m; key_opts := key_opts c |}.
 
 (** the variant that skips staging when an input file is already there *)
 Definition if_absent (c : cfg) : cfg := {|
   f_input := f_input c; f_output := f_output c; f_error := f_error c; f_hashes := f_hashes c;
   d_jobs := d_jobs c; d_array := d_array c; arr_out_elem := arr_out_elem c; arr_err_elem := arr_err_elem c;
   arr_suffix := arr_suffix c; env_vars := env_vars c; key_task := key_task c; stage_input := IfAbsent;
-  clear_output := clear_output c |}.
+  clear_output := clear_output c; key_opts := key_opts c |}.
 
 (** the variant in which jobs are grouped by the short task name only *)
 Definition by_name (c : cfg) : cfg := {|
   f_input := f_input c; f_output := f_output c; f_error := f_error c; f_hashes := f_hashes c;
   d_jobs := d_jobs c; d_array := d_array c; arr_out_elem := arr_out_elem c; arr_err_elem := arr_err_elem c;
   arr_suffix := arr_suffix c; env_vars := env_vars c; key_task := KName; stage_input := stage_input c;
-  clear_output := clear_output c |}.
+  clear_output := clear_output c; key_opts := key_opts c |}.
 
 (** ** Array grouping (job_array.py JobDescription / JobArrayer, aws_batch.py _submit_array_job) *)
-Record tinfo := { t_ns : str; t_name : str; t_opts : str }.
-  (* task namespace ([] if none), short name, str(sorted(job.get_options().items())) *)
+Record tinfo := { t_ns : str; t_name : str; t_opts : str; t_optnames : str }.
+  (* task namespace ([] if none), short name, str(sorted(job.get_options().items())),
+     str(sorted(job.get_options())) *)
 Definition ch_dot : ascii := "."%char.
 Definition ch_space : ascii := " "%char.
 (* Task.fullname *)
@@ -90,7 +103,8 @@ Definition fullname (t : tinfo) : str :=
   match t_ns t with [] => t_name t | ns => ns ++ ch_dot :: t_name t end.
 (* JobDescription.key = task_name + " " + str(sorted(options.items())) *)
 Definition descr_key (c : cfg) (t : tinfo) : str :=
-  (match key_task c with KFullname => fullname t | KName => t_name t end) ++ ch_space :: t_opts t.
+  (match key_task c with KFullname => fullname t | KName => t_name t end)
+  ++ ch_space :: (match key_opts c with OItems => t_opts t | ONames => t_optnames t end).
 
 (** ** posixpath.join and the scratch paths *)
 Definition pjoin (a b : str) : str :=
